@@ -91,6 +91,14 @@ Proof.
   - subst t. simpl in He. destruct He.
 Qed.
 
+Lemma nodup_snoc : forall (l : list chip) c, NoDup l -> ~ In c l -> NoDup (l ++ [c]).
+Proof.
+  induction l as [|a l IH]; intros c Hnd Hc; cbn [app]; [constructor; [intros []|constructor]|].
+  apply NoDup_cons_iff in Hnd. destruct Hnd as [Ha Hnd]. constructor.
+  - intros Hin. apply in_app_or in Hin. destruct Hin as [Hin|[Hin|[]]]; [exact (Ha Hin)|]. subst. apply Hc. left. reflexivity.
+  - apply IH; [exact Hnd|]. intros Hin. apply Hc. right. exact Hin.
+Qed.
+
 Lemma in_cnt_extend : forall (c : chip) (L L' : list chip),
     (forall x, cnt x L' = (cnt x L + (if chip_eq_dec c x then 1 else 0))%nat) ->
     forall x, In x L' <-> In x L \/ x = c.
@@ -105,13 +113,15 @@ Record cinv (m : rmachine) (root : rtree) (q : list qitem) (f : list rtree) (br 
   ci_nodup : forall x, (cnt x (forest_chips f) + cnt x (pend q) <= 1)%nat;
   ci_alive : forall x, In x (forest_chips f) -> chip_alive m x = true;
   ci_parent : forall p d o, In (Some p, d, o) q -> In p (forest_chips f);
-  ci_first : forall d o, In (None, d, o) q -> f = [] /\ q = [(None, d, o)];
+  ci_first : forall d o, In (None, d, o) q -> f = [] /\ q = [(None, d, o)] /\ o = root;
   ci_hops : forest_hops_ok m f;
   ci_sub : forall x, In x (forest_chips f) \/ In x (pend q) -> In x (chips root);
   ci_live : forall x, In x (chips root) -> chip_alive m x = true -> In x (forest_chips f) \/ In x (pend q);
   ci_broken : forall p c, In (p, c) br ->
                           In p (forest_chips f) /\ exists t, In t (tl f) /\ root_chip t = Some c;
-  ci_count : (length f = length br + (if f then 0 else 1))%nat }.
+  ci_count : (length f = length br + (if f then 0 else 1))%nat;
+  ci_brnodup : NoDup (map snd br);
+  ci_head : forall t0 f0, f = t0 :: f0 -> root_chip t0 = root_chip root }.
 
 Lemma pair_mem_false : forall p c br, (forall p', ~ In (p', c) br) -> pair_mem (p, c) br = false.
 Proof.
@@ -144,7 +154,7 @@ Proof.
   cbn [copy_loop] in H. destruct q as [|[[np dir] old] q].
   - inversion H; subst. exact I.
   - destruct old as [c kids|v]; [|discriminate].
-    destruct I as [Ind Ial Ipar Ifirst Ihops Isub Ilive Ibr Icnt].
+    destruct I as [Ind Ial Ipar Ifirst Ihops Isub Ilive Ibr Icnt Ibn Ihd].
     assert (Hc0 : forall x, (cnt x (forest_chips f) + ((if chip_eq_dec c x then 1 else 0)
                              + cnt x (flat_map (fun k => chips (snd k)) kids) + cnt x (pend q)) <= 1)%nat).
     { intros x. rewrite <- cnt_pend_cons_node with (np := np) (dir := dir). apply Ind. }
@@ -199,6 +209,9 @@ Proof.
               destruct (tl_attach_roots p (Some d, RNode c []) f t B2) as [t' [T1 T2]]. exists t'.
               split; [exact T1 | rewrite T2; exact B3].
            ++ unfold forest_attach. rewrite map_length. destruct f; [destruct Hp | exact Icnt].
+           ++ exact Ibn.
+           ++ intros t0 f0 Heq. destruct f as [|a f]; [destruct Hp|]. unfold forest_attach in Heq. cbn [map] in Heq.
+              injection Heq as Ha Hf. rewrite <- Ha, root_chip_attach. apply (Ihd a f eq_refl).
         -- (* no working link from the parent: a disconnected subtree *)
            assert (Hfresh : forall p', ~ In (p', c) br).
            { intros p' Hin. destruct (Ibr p' c Hin) as [_ [t [T1 T2]]].
@@ -240,8 +253,13 @@ Proof.
                  exists (RNode c []). split; [|reflexivity]. destruct f as [|a f]; [congruence|].
                  cbn [app tl]. apply in_or_app. right. left. reflexivity.
            ++ rewrite !app_length. cbn [length]. destruct f as [|a f]; [destruct Hp|]. cbn [app]. cbn [length] in *. lia.
+           ++ rewrite map_app. cbn [map snd]. apply nodup_snoc; [exact Ibn|].
+              intros Hin. apply in_map_iff in Hin. destruct Hin as [[p' c'] [Hc' Hin]]. cbn [snd] in Hc'. subst c'.
+              exact (Hfresh p' Hin).
+           ++ intros t0 f0 Heq. destruct f as [|a f]; [destruct Hp|]. cbn [app] in Heq. injection Heq as Ha Hf.
+              rewrite <- Ha. apply (Ihd a f eq_refl).
       * (* the root *)
-        destruct (Ifirst dir (RNode c kids) (or_introl eq_refl)) as [F Fq]. subst f.
+        destruct (Ifirst dir (RNode c kids) (or_introl eq_refl)) as [F [Fq Fo]]. subst f.
         assert (Hq : q = []) by (inversion Fq; reflexivity). subst q.
         assert (Hbr : br = []).
         { destruct br as [|[p0 c0] br]; [reflexivity|]. destruct (Ibr p0 c0 (or_introl eq_refl)) as [[] _]. }
@@ -275,6 +293,8 @@ Proof.
            ++ right. apply Hinq. apply in_app_or in Hl. tauto.
         -- intros p0 c0 [].
         -- reflexivity.
+        -- constructor.
+        -- intros t0 f0 Heq. inversion Heq; subst t0 f0. rewrite <- Fo. reflexivity.
     + (* a dead chip: its children are handed to the parent *)
       destruct np as [p|]; [|discriminate].
       set (q' := q ++ map (fun k => (Some p, fst k, snd k)) kids) in *.
@@ -304,6 +324,8 @@ Proof.
         -- right. apply Hinq. apply in_app_or in Hl. tauto.
       * exact Ibr.
       * exact Icnt.
+      * exact Ibn.
+      * exact Ihd.
 Qed.
 
 (* the fuel is never exhausted: every iteration removes one node from the queue's trees *)
@@ -345,7 +367,10 @@ Theorem copy_disconnect_inv : forall m root,
          copy consists of the tree of the root and one tree per broken pair *)
       /\ (forall p c, In (p, c) br ->
                       In p (forest_chips f) /\ exists t, In t (tl f) /\ root_chip t = Some c)
-      /\ length f = S (length br).
+      /\ length f = S (length br)
+      (* no child is recorded twice, and the first tree is the copy of the root *)
+      /\ NoDup (map snd br)
+      /\ (exists t0 f0, f = t0 :: f0 /\ root_chip t0 = root_chip root).
 Proof.
   intros m root Hnd. unfold copy_and_disconnect. split.
   - apply copy_loop_fuel. simpl. lia.
@@ -356,18 +381,20 @@ Proof.
         apply (proj1 (cnt_nodup (chips root)) Hnd x).
       - intros x [].
       - intros p d o [Hin|[]]. discriminate.
-      - intros d o [Hin|[]]. inversion Hin; subst. split; reflexivity.
+      - intros d o [Hin|[]]. inversion Hin; subst. split; [reflexivity|]. split; reflexivity.
       - intros t p r c [].
       - intros x [[]|Hx]. unfold pend in Hx. cbn [flat_map snd] in Hx. rewrite app_nil_r in Hx. exact Hx.
       - intros x Hx _. right. unfold pend. cbn [flat_map snd]. rewrite app_nil_r. exact Hx.
       - intros p c [].
-      - reflexivity. }
-    pose proof (copy_loop_inv m root _ _ _ _ _ _ I0 H) as [Ind Ial _ _ Ihops Isub Ilive Ibr Icnt].
+      - reflexivity.
+      - constructor.
+      - intros t0 f0 Heq. discriminate. }
+    pose proof (copy_loop_inv m root _ _ _ _ _ _ I0 H) as [Ind Ial _ _ Ihops Isub Ilive Ibr Icnt Ibn Ihd].
     assert (Hne : f <> []).
     { cbn [copy_loop] in H. destruct root as [c kids|v]; [|discriminate].
       destruct (chip_alive m c) eqn:E; [|discriminate].
       intros F. subst f. destruct (Ilive c (or_introl eq_refl) E) as [[]|[]]. }
-    split; [|split; [|split; [|split]]].
+    split; [|split; [|split; [|split; [|split; [|split]]]]].
     + intros x. split.
       * intros Hx. split; [apply Isub; left; exact Hx | apply rt_chip_alive_iff; apply Ial; exact Hx].
       * intros [Hx Hw]. apply rt_chip_alive_iff in Hw. destruct (Ilive x Hx Hw) as [Hl|[]]. exact Hl.
@@ -375,4 +402,6 @@ Proof.
     + exact Ihops.
     + exact Ibr.
     + destruct f; [congruence|]. cbn [length] in *. lia.
+    + exact Ibn.
+    + destruct f as [|t0 f0]; [congruence|]. exists t0, f0. split; [reflexivity | apply (Ihd t0 f0 eq_refl)].
 Qed.
